@@ -91,6 +91,7 @@ Section EVAL.
                         end) l ;;
             Ret ("[" ++ join_strings parts ++ "]")
         end
+    | None => dispatch_error "to_string"          (* an undefined value: no overload of to_string accepts it *)
     | _ => unsup "to_string of this kind of value"
     end.
 
@@ -106,6 +107,13 @@ Section EVAL.
     else if String.eqb op "<=" then Some (negb (string_lt b a))
     else if String.eqb op ">=" then Some (negb (string_lt a b))
     else None.
+
+  (* std::map order: keys ascending by unsigned byte; an existing key keeps its entry (std::map::insert) *)
+  Fixpoint map_insert (k : string) (v : dloc) (l : list (string * dloc)) : list (string * dloc) :=
+    match l with
+    | [] => [(k, v)]
+    | (k', v') :: r => if String.eqb k k' then l else if string_lt k k' then (k, v) :: l else (k', v') :: map_insert k v r
+    end.
 
   (* a reference to the object of `d` (Handle_Return<T&>): a new Boxed_Value aliasing the object *)
   Definition reference_to (d : dloc) : prog dloc := Prim (PAlias d true).
@@ -183,8 +191,64 @@ Section EVAL.
   Fixpoint objs_of (l : list dloc) : prog (list (option obj)) :=
     match l with [] => Ret [] | d :: r => o <- obj_of d ;; os <- objs_of r ;; Ret (o :: os) end.
 
+  Definition is_ctor (cl : closure) : bool := match cl_kind cl with CKCtor _ => true | _ => false end.
+  Definition is_dynamic (cl : closure) : bool := match cl_kind cl with CKPlain => true | _ => false end.
+  (* what a caller supplies: a constructor makes its own `this` (Dynamic_Object_Constructor: arity - 1, first type dropped) *)
+  Definition cl_arity (cl : closure) : nat := List.length (cl_params cl) - (if is_ctor cl then 1 else 0).
+  Definition cl_arg_ptypes (cl : closure) : list string := if is_ctor cl then tl (cl_ptypes cl) else cl_ptypes cl.
+
+  Definition class_accepts (cls : string) (o : option obj) : bool :=
+    match o with Some (ODyn cn _) => String.eqb cls "Dynamic_Object" || String.eqb cls cn | _ => false end.
+
+  (* Dynamic_Object::get_attr on a mutable object: the attribute's own Boxed_Value, entered undefined when missing (std::map::operator[]) *)
+  Definition get_attr (o : dloc) (name : string) : prog dloc :=
+    oo <- obj_of o ;;
+    match oo with
+    | Some (ODyn cn attrs) =>
+        match assoc attrs name with
+        | Some d => Ret d
+        | None => d <- new_undef ;; write_through o (ODyn cn (map_insert name d attrs)) "get_attr" ;;; Ret d
+        end
+    | _ => dispatch_error "get_attr"
+    end.
+
+  (* clone_if_necessary, script objects included. An object is cloned by the bootstrap's script function
+       def Dynamic_Object::clone() { auto &new_o = Dynamic_Object(this.get_type_name());
+                                     for_each(this.get_attrs(), fun[new_o](x) { new_o.get_attr(x.first) = x.second; } ); new_o; }
+     i.e. every attribute (in key order) goes through the `=` of an undefined left-hand side: clone_if_necessary, then the slot takes
+     the clone's data. `depth` bounds the nesting of objects inside attributes. *)
+  Fixpoint clone_value (depth : nat) (d : dloc) : prog dloc :=
+    x <- Prim (PGetData d) ;;
+    if d_ret x then reset_ret d ;;; Ret d
+    else
+      o <- obj_of d ;;
+      match o with
+      | Some (ODyn cn attrs) =>
+          match depth with
+          | O => unsup "clone of deeply nested objects"
+          | S depth' =>
+              new_o <- new_value (ODyn cn []) false false ;;
+              (fix go (l : list (string * dloc)) : prog unit :=
+                 match l with
+                 | [] => Ret tt
+                 | (k, v) :: r =>
+                     v' <- on_fail (clone_value depth' v)
+                             (fun f => match f with
+                                       | FThrow (EStd "dispatch_error" _) => eval_error "Missing clone or copy constructor for right hand side of equation"
+                                       | _ => Fail f
+                                       end) ;;
+                     slot <- get_attr new_o k ;;
+                     assign_data slot v' ;;; go r
+                 end) attrs ;;;
+              Ret new_o
+          end
+      | Some ob => c <- clone_obj ob ;; reset_ret c ;;; Ret c
+      | None => unsup "clone of undefined value"
+      end.
+  Definition clone_if_needed (d : dloc) : prog dloc := clone_value 6 d.
+
   (* Dynamic_Proxy_Function::do_call for one overload: None = does not apply (arity / declared types / guard) *)
-  Definition try_closure (cl : closure) (args : list dloc) : prog (option dloc) :=
+  Definition try_plain (cl : closure) (args : list dloc) : prog (option dloc) :=
     if negb (Nat.eqb (List.length args) (List.length (cl_params cl))) then Ret None
     else
       os <- objs_of args ;;
@@ -208,17 +272,53 @@ Section EVAL.
       if ok : bool then d <- call_closure cl args (cl_body cl) ;; Ret (Some d) else Ret None
       end.
 
+  (* one overload of any kind. A method is a Dynamic_Proxy_Function whose first declared type is the class (Dynamic_Object_Function
+     repeats that test); a constructor makes the object (a returned value), runs the body on it and answers the object whatever the
+     body yields; an attribute accessor answers the attribute's own Boxed_Value *)
+  Definition try_closure (cl : closure) (args : list dloc) : prog (option dloc) :=
+    match cl_kind cl with
+    | CKPlain | CKMethod _ => try_plain cl args
+    | CKCtor cls =>
+        if negb (Nat.eqb (S (List.length args)) (List.length (cl_params cl))) then Ret None
+        else this <- new_value (ODyn cls []) false true ;;
+             x <- try_plain cl (this :: args) ;;
+             match x with Some _ => Ret (Some this) | None => Ret None end
+    | CKAttr cls attr =>
+        match args with
+        | [o] => oo <- obj_of o ;;
+                 if class_accepts cls oo then
+                   dd <- Prim (PGetData o) ;;
+                   if d_const dd then unsup "attribute of a const object" else d <- get_attr o attr ;; Ret (Some d)
+                 else Ret None
+        | _ => Ret None
+        end
+    end.
+
   Fixpoint dispatch_in_order (l : list closure) (args : list dloc) : prog (option dloc) :=
     match l with
     | [] => Ret None
     | cl :: r => x <- try_closure cl args ;; match x with Some d => Ret (Some d) | None => dispatch_in_order r args end
     end.
+  (* function_less_than orders two non-dynamic functions by their parameter Type_Infos (ties by type_info::before); the model
+     only follows it when those are pairwise equal, i.e. when the stable sort keeps registration order *)
+  Definition norm_ptype (t : string) : string := if existsb (String.eqb t) known_type_names then t else "".
+  Fixpoint same_prefix (a b : list string) : bool :=
+    match a, b with
+    | x :: a', y :: b' => String.eqb (norm_ptype x) (norm_ptype y) && same_prefix a' b'
+    | _, _ => true
+    end.
+  Definition kind_tag (cl : closure) : nat := match cl_kind cl with CKPlain => 0 | CKMethod _ => 1 | CKCtor _ => 2 | CKAttr _ _ => 3 end.
+  Definition order_known (grp : list closure) : bool :=
+    forallb (fun a => forallb (fun b => is_dynamic a || is_dynamic b || (Nat.eqb (kind_tag a) (kind_tag b) && same_prefix (cl_ptypes a) (cl_ptypes b))) grp) grp.
+
   (* dispatch(): candidates of the right arity, those with fewer differing parameter types first, table order within a group *)
   Definition dispatch_closures (l : list closure) (args : list dloc) : prog (option dloc) :=
     os <- objs_of args ;;
-    let right := filter (fun cl => Nat.eqb (List.length (cl_params cl)) (List.length args)) l in
-    let group i := filter (fun cl => Nat.eqb (num_diffs (cl_ptypes cl) os) i) right in
-    dispatch_in_order (flat_map group (seq 0 (S (List.length args)))) args.
+    let right := filter (fun cl => Nat.eqb (cl_arity cl) (List.length args)) l in
+    let group i := filter (fun cl => Nat.eqb (num_diffs (cl_arg_ptypes cl) os) i) right in
+    let groups := map group (seq 0 (S (List.length args))) in
+    if forallb order_known groups then dispatch_in_order (List.concat groups) args
+    else unsup "overload order decided by type_info::before".
 
   (* an operator function defined by the script (def `-`(string a, string b) { … }): tried when no built-in overload applies *)
   Definition user_operator (text : string) (l r : dloc) (otherwise : prog dloc) : prog dloc :=
@@ -343,7 +443,16 @@ Section EVAL.
           (* harness callback: returns its argument, or throws the configured exception on the n-th invocation *)
           t <- Prim PTick ;;
           match t with
-          | None => match o with Some ob => new_value ob false true | None => dispatch_error "cb" end
+          | None =>
+              (* the callback is int(int): an arithmetic argument of another type is converted at dispatch *)
+              match o with
+              | Some (ONum _ t v) =>
+                  match convert t v (TI 32 true) with
+                  | Some v' => new_value (ONum "int" (TI 32 true) v') false true
+                  | None => unsup "conversion of an out-of-range floating-point value"
+                  end
+              | _ => dispatch_error "cb"
+              end
           | Some kd =>
               if String.eqb kd "boxed" then v <- new_value (ONum "int" (TI 32 true) (VI 77)) false false ;; throw (EBoxed v)
               else if String.eqb kd "eval_error" then eval_error "injected"
@@ -400,12 +509,6 @@ Section EVAL.
     end.
 
   (* v[i]: call_function("[]") -> c.at(index) *)
-  (* std::map order: keys ascending by unsigned byte; an existing key keeps its entry (std::map::insert) *)
-  Fixpoint map_insert (k : string) (v : dloc) (l : list (string * dloc)) : list (string * dloc) :=
-    match l with
-    | [] => [(k, v)]
-    | (k', v') :: r => if String.eqb k k' then l else if string_lt k k' then (k, v) :: l else (k', v') :: map_insert k v r
-    end.
 
   Definition array_call (v i : dloc) : prog dloc :=
     vo <- obj_of v ;; io <- obj_of i ;;
@@ -564,7 +667,7 @@ Section EVAL.
           match lo with
           | None =>
               if is_reference_lhs (child 0 n) then assign_data l r ;;; reset_ret l ;;; Ret r
-              else r' <- catch_dispatch (clone_if_necessary r) "Missing clone or copy constructor for right hand side of equation" ;;
+              else r' <- catch_dispatch (clone_if_needed r) "Missing clone or copy constructor for right hand side of equation" ;;
                    catch_dispatch (call_assign l r') "Unable to find appropriate'=' operator."
           | Some _ => catch_dispatch (call_assign l r) "Unable to find appropriate'=' operator."
           end
@@ -586,7 +689,7 @@ Section EVAL.
 
   Definition eval_assign_decl (n : ast) : prog dloc :=
     v <- Ev (child 1 n) ;;
-    d <- clone_if_necessary v ;;
+    d <- clone_if_needed v ;;
     reset_ret d ;;;
     declare (a_text (child 0 n)) d.
 
@@ -688,7 +791,7 @@ Section EVAL.
     | [] => new_value (OVec (rev acc)) true false
     | x :: r =>
         v <- Ev x ;;
-        e <- catch_dispatch (clone_if_necessary v) "Can not find appropriate 'clone' or copy constructor for vector elements" ;;
+        e <- catch_dispatch (clone_if_needed v) "Can not find appropriate 'clone' or copy constructor for vector elements" ;;
         inline_items r (e :: acc)
     end.
   Definition eval_inline_array (n : ast) : prog dloc :=
@@ -703,7 +806,7 @@ Section EVAL.
         match ko with
         | Some (OStr key) =>
             v <- Ev (child 1 x) ;;
-            e <- catch_dispatch (clone_if_necessary v) "Can not find appropriate copy constructor or 'clone' while inserting into Map." ;;
+            e <- catch_dispatch (clone_if_needed v) "Can not find appropriate copy constructor or 'clone' while inserting into Map." ;;
             inline_pairs r (map_insert key e acc)
         | _ => throw (EStd "bad_boxed_cast" "Cannot perform boxed_cast")
         end
@@ -724,27 +827,74 @@ Section EVAL.
     let guard := if guarded then Some (nth (List.length ch - 2) ch null_ast) else None in
     let kept := firstn (List.length ch - (if guarded then 2 else 1)) ch in
     let params := match kept with _ :: al :: _ => if kind_eqb (a_kind al) KArg_List then a_children al else [] | _ => [] end in
-    mkclosure (a_text (child 0 n)) (map arg_name params) (map arg_type params) body guard [] false.
+    mkclosure (a_text (child 0 n)) (map arg_name params) (map arg_type params) body guard [] false CKPlain.
 
+  Definition same_kind_class (a b : closure) : bool :=
+    match cl_kind a, cl_kind b with
+    | CKPlain, CKPlain => true
+    | CKMethod x, CKMethod y | CKCtor x, CKCtor y | CKAttr x _, CKAttr y _ => String.eqb x y
+    | _, _ => false
+    end.
+
+  (* Proxy_Function_Base::operator== as add_function uses it on the overloads of one name: two attribute accessors of one class are
+     equal (the same C++ lambda type); script functions are equal when unguarded with equal declared parameter lists *)
   Definition closure_sig_eq (a b : closure) : bool :=
-    Nat.eqb (List.length (cl_params a)) (List.length (cl_params b))
-    && (match cl_guard a, cl_guard b with None, None => true | _, _ => false end)
-    && forallb (fun p => String.eqb (fst p) (snd p)) (combine (cl_ptypes a) (cl_ptypes b)).
+    same_kind_class a b &&
+    (match cl_kind a with
+     | CKAttr _ _ => true
+     | _ => Nat.eqb (List.length (cl_params a)) (List.length (cl_params b))
+            && (match cl_guard a, cl_guard b with None, None => true | _, _ => false end)
+            && forallb (fun p => String.eqb (fst p) (snd p)) (combine (cl_ptypes a) (cl_ptypes b))
+     end).
 
   Definition is_guarded (x : closure) : bool := match cl_guard x with Some _ => true | None => false end.
 
-  (* add_function: reject an equal signature, then stable-sort guarded overloads first *)
-  Definition eval_def (n : ast) : prog dloc :=
-    let cl := make_def_closure n in
-      let name := cl_name cl in
-      fs <- Prim (PGetFuncs name) ;;
-      match fs with
-      | None => Prim (PSetFuncs name [cl]) ;;; void_var
-      | Some l =>
-          if existsb (closure_sig_eq cl) l then eval_error ("Function redefined '" ++ name ++ "'")
-          else let l' := app l [cl] in
-               Prim (PSetFuncs name (app (filter is_guarded l') (filter (fun x => negb (is_guarded x)) l'))) ;;; void_var
-      end.
+
+  (* add_function: reject an equal signature, then stable-sort: wrappers (methods, constructors, attributes) first, then guarded
+     script functions, then unguarded ones *)
+  Definition add_function (cl : closure) (redefined : string) : prog dloc :=
+    let name := cl_name cl in
+    if negb (is_dynamic cl) && (existsb (String.eqb name) builtin_names || existsb (String.eqb name) unmodelled_names)
+    then unsup "member named like an engine function" else
+    fs <- Prim (PGetFuncs name) ;;
+    match fs with
+    | None => Prim (PSetFuncs name [cl]) ;;; void_var
+    | Some l =>
+        if existsb (closure_sig_eq cl) l then eval_error (redefined ++ " '" ++ name ++ "'")
+        else let l' := app l [cl] in
+             Prim (PSetFuncs name (app (filter (fun x => negb (is_dynamic x)) l')
+                                  (app (filter (fun x => is_dynamic x && is_guarded x) l')
+                                       (filter (fun x => is_dynamic x && negb (is_guarded x)) l')))) ;;; void_var
+    end.
+
+  Definition eval_def (n : ast) : prog dloc := add_function (make_def_closure n) "Function redefined".
+
+  (* Method_AST_Node: ( Method class name [Arg_List] [guard] body ); `this` is the implied first parameter, typed with the class *)
+  Definition eval_method (n : ast) : prog dloc :=
+    let ch := a_children n in
+    let guarded := has_guard ch 1 in
+    let body := last ch null_ast in
+    let guard := if guarded then Some (nth (List.length ch - 2) ch null_ast) else None in
+    let kept := firstn (List.length ch - (if guarded then 2 else 1)) ch in
+    let params := match kept with _ :: _ :: al :: _ => if kind_eqb (a_kind al) KArg_List then a_children al else [] | _ => [] end in
+    let cls := a_text (child 0 n) in
+    let name := a_text (child 1 n) in
+    let is_c := String.eqb name cls in
+    add_function (mkclosure name ("this" :: map arg_name params) (cls :: map arg_type params) body guard [] false
+                            (if is_c then CKCtor cls else CKMethod cls))
+                 "Method redefined".
+
+  (* Attr_Decl_AST_Node: ( Attr_Decl class name ) *)
+  Definition eval_attr_decl (n : ast) : prog dloc :=
+    let cls := a_text (child 0 n) in
+    let name := a_text (child 1 n) in
+    add_function (mkclosure name ["this"] [cls] null_ast None [] false (CKAttr cls name)) "Attribute redefined".
+
+  (* Class_AST_Node: the body runs in a scope that holds the class name *)
+  Definition eval_class (n : ast) : prog dloc :=
+    Scoped (v <- new_value (OStr (a_text (child 0 n))) true false ;;
+            add_object "_current_class_name" v ;;;
+            Ev (child 1 n)) ;;; void_var.
 
   Fixpoint insert_sorted (k : string) (v : dloc) (l : list (string * dloc)) : list (string * dloc) :=
     match l with
@@ -764,10 +914,10 @@ Section EVAL.
     let params := a_children (child 1 n) in
     cs <- eval_captures caps [] ;;
     let this_cap := existsb (fun x => String.eqb (a_text (child 0 x)) "this") caps in
-    new_value (OFun (FClosure (mkclosure "" (map arg_name params) (map arg_type params) (child 2 n) None cs this_cap))) false false.
+    new_value (OFun (FClosure (mkclosure "" (map arg_name params) (map arg_type params) (child 2 n) None cs this_cap CKPlain))) false false.
 
   Definition call_single (cl : closure) (args : list dloc) (fname : string) : prog dloc :=
-    if negb (Nat.eqb (List.length args) (List.length (cl_params cl))) then
+    if negb (Nat.eqb (List.length args) (cl_arity cl)) then
       eval_error ("Function dispatch arity mismatch with function '" ++ fname ++ "'")
     else x <- try_closure cl args ;;
          match x with
@@ -817,20 +967,85 @@ Section EVAL.
       | _ => eval_error ("'" ++ a_text (child 0 n) ++ "' does not evaluate to a function.")
       end).
 
-  (* obj.f(args): the object is the first argument *)
+  (* calling a function *value* (what an attribute holds) with `args`: None = it refused them (arity_error, guard_error, bad_boxed_cast) *)
+  Definition call_fn_value (f : fnobj) (args : list dloc) : prog (option dloc) :=
+    match f with
+    | FClosure cl => if Nat.eqb (List.length args) (cl_arity cl) then try_closure cl args else Ret None
+    | FNamed name =>
+        if existsb (String.eqb name) builtin_names then unsup "engine function held in an attribute" else
+        fs <- Prim (PGetFuncs name) ;;
+        match fs with
+        | Some [cl] =>
+            if existsb (fun t => existsb (String.eqb t) arith_type_names) (cl_ptypes cl) then
+              x <- dispatch_closures [cl] args ;; match x with Some d => Ret (Some d) | None => dispatch_error name end
+            else if Nat.eqb (List.length args) (cl_arity cl) then try_closure cl args else Ret None
+        | Some l => x <- dispatch_closures l args ;; match x with Some d => Ret (Some d) | None => dispatch_error name end
+        | None => dispatch_error name
+        end
+    end.
+
+  (* Dispatch_Engine::call_member's do_attribute_call: the value `bv` found for the member; when arguments remain, or the value is
+     a function, it is called with them in a scope holding `__this` (This_Foist) *)
+  Definition attribute_call (this : dloc) (bv : dloc) (rest : list dloc) (name : string) : prog dloc :=
+    bo <- obj_of bv ;;
+    match bo, rest with
+    | Some (OFun f), _ =>
+        Scoped (add_object "__this" this ;;;
+                x <- call_fn_value f rest ;;
+                match x with Some d => Ret d | None => dispatch_error name end)
+    | _, [] => Ret bv
+    | _, _ => dispatch_error name            (* boxed_cast<const Proxy_Function_Base *> fails *)
+    end.
+
+  (* Dispatch_Engine::call_member for a script object as first parameter *)
+  Definition call_member (name : string) (this : dloc) (args : list dloc) (has_params : bool) : prog dloc :=
+    if existsb (String.eqb name) builtin_names || existsb (String.eqb name) unmodelled_names then unsup ("engine function " ++ name ++ " on a script object") else
+    fs <- Prim (PGetFuncs name) ;;
+    to <- obj_of this ;;
+    let l := match fs with Some l => l | None => [] end in
+    let is_attr_for cl := match cl_kind cl with CKAttr cls _ => class_accepts cls to | _ => false end in
+    if has_params && existsb is_attr_for l then
+      x <- dispatch_closures l [this] ;;
+      match x with
+      | Some bv => attribute_call this bv args name
+      | None => dispatch_error name
+      end
+    else
+      x <- dispatch_closures l (this :: args) ;;
+      match x with
+      | Some d => Ret d
+      | None =>
+          (* method_missing(Dynamic_Object &, name) = get_attr(name): an undeclared member is an attribute created on the spot *)
+          dd <- Prim (PGetData this) ;;
+          if d_const dd then unsup "member of a const object" else
+          bv <- get_attr this name ;;
+          attribute_call this bv args name
+      end.
+
+  (* Dot_Access_AST_Node: obj.f(args) / obj.a: the object is the first argument *)
   Definition eval_dot_access (n : ast) : prog dloc :=
     let rhs := child 1 n in
+    let name := match a_kind rhs with KFun_Call => a_text (child 0 rhs) | _ => a_text rhs end in
+    let reason := "Error with function dispatch for function '" ++ name ++ "'" in
     match a_kind rhs with
     | KFun_Call =>
         InCall (
           o <- Ev (child 0 n) ;;
           args <- eval_list (a_children (child 1 rhs)) ;;
           Prim (PSaveParams (o :: args)) ;;;
-          let name := a_text (child 0 rhs) in
           oo <- obj_of o ;;
           match oo with
-          | Some (ODyn _ _) => unsup "method call on a script object"
+          | Some (ODyn _ _) => absorb_return (catch_dispatch (call_member name o args true) reason)
           | _ => absorb_return (call_function_object (FNamed name) (o :: args) name)
+          end)
+    | KId =>
+        InCall (
+          o <- Ev (child 0 n) ;;
+          Prim (PSaveParams [o]) ;;;
+          oo <- obj_of o ;;
+          match oo with
+          | Some (ODyn _ _) => absorb_return (catch_dispatch (call_member name o [] false) reason)
+          | _ => unsup "attribute access on a built-in value"
           end)
     | _ => unsup "attribute access"
     end.
@@ -1003,6 +1218,9 @@ Section EVAL.
     | KInline_Array => eval_inline_array n
     | KInline_Map => eval_inline_map n
     | KDef => eval_def n
+    | KMethod => eval_method n
+    | KAttr_Decl => eval_attr_decl n
+    | KClass => eval_class n
     | KLambda => eval_lambda n
     | KFun_Call => eval_fun_call (negb (String.eqb (a_cls n) "UnusedReturn")) n
     | KUnused_Return_Fun_Call => eval_fun_call false n
